@@ -3,6 +3,7 @@ C02 (composition) — the parser model of C01 run on what the writer model of C0
 -/
 import PistacheModel.Lemmas.ParserWrite
 import PistacheModel.Props.C01
+import PistacheModel.Lemmas.Net
 
 namespace Pistache.Parser.Props
 open Pistache Pistache.Stream Pistache.Parser Pistache.Num
@@ -104,6 +105,138 @@ theorem parse_written (i : Nat) (mt pth : Bytes) (q : List (Bytes × Bytes)) (li
   simp only [msg_apps_append]
 
 
+
+/-- the same for any first line (request or status line) whose step parser is known to succeed on the
+    written bytes -/
+theorem parse_general (k : Kind) (w : Bytes) (t1 : List Eff) (lines : List (Bytes × Bytes × List Eff)) (body : Bytes) (max : Nat)
+    (hfl : firstLine k w = (t1, .ok () ((lines.map fun (l : Bytes × Bytes × List Eff) => lineBytes l.1 l.2.1).flatten ++ Emit.crlf ++ body)))
+    (hlines : ∀ l ∈ lines, LineOk l.1 l.2.1 ∧ headerEffects l.1 l.2.1 = .ok l.2.2)
+    (hframe : FramingFor (({} : Msg).apps (t1 ++ (lines.map (·.2.2)).flatten)) body)
+    (hfit : w.length ≤ max) :
+    ∃ p', run (init k max) [w] = (p', .done) ∧ p'.msg = { (({} : Msg).apps (t1 ++ (lines.map (·.2.2)).flatten)) with body := body } := by
+  generalize ht2 : (lines.map (·.2.2)).flatten = t2 at hframe
+  have hhd : headers ((lines.map fun (l : Bytes × Bytes × List Eff) => lineBytes l.1 l.2.1).flatten ++ Emit.crlf ++ body) = (t2, .ok () body) := by
+    unfold headers
+    rw [← ht2]
+    apply headersLoop_write lines body hlines
+    have : ∀ (ls : List (Bytes × Bytes × List Eff)), ls.length ≤ ((ls.map fun (l : Bytes × Bytes × List Eff) => lineBytes l.1 l.2.1).flatten).length := by
+      intro ls
+      induction ls with
+      | nil => simp
+      | cons l r ih =>
+        simp only [List.map_cons, List.flatten_cons, List.length_append, List.length_cons]
+        have : 1 ≤ (lineBytes l.1 l.2.1).length := by simp [lineBytes, Emit.crlf]; omega
+        omega
+    have := this lines
+    simp only [List.length_append]; omega
+  simp only [run]
+  have hfeed : feed (init k max) w = some (feedRaw (init k max) w) := feed_eq _ _ (by simpa [init] using hfit)
+  rw [hfeed]
+  simp only
+  have hparse : parse (feedRaw (init k max) w) =
+      ({ kind := k, max := max, total := w.length, unread := [], step := 2,
+         msg := { (({} : Msg).apps t1).apps t2 with body := body }, bst := some { mode := .done, body := body } }, .done) := by
+    unfold parse
+    simp only [feedRaw, init, List.nil_append, Nat.zero_add, if_true]
+    unfold runLine
+    simp only [hfl]
+    unfold stage1
+    simp only [Nat.zero_add, if_true]
+    unfold runLine
+    simp only [hhd]
+    unfold runBody
+    simp only
+    rw [← msg_apps_append] at *
+    rcases hframe with ⟨hb, hinit⟩ | ⟨hb, hinit⟩
+    · rw [hinit, clData_feed body [] hb]
+      simp [outcomeOf]
+    · subst hb
+      rw [hinit]
+      simp [bodyFeed, outcomeOf]
+  rw [hparse]
+  refine ⟨_, rfl, ?_⟩
+  simp only [msg_apps_append]
+
+/-! ### the status line -/
+
+theorem natToDec_digits' (n : Nat) : ∀ c ∈ natToDec n, 48 ≤ c ∧ c ≤ 57 := by
+  induction n using Nat.strongRecOn with
+  | _ n ih =>
+    intro c hc
+    unfold natToDec at hc
+    split at hc
+    · simp at hc; omega
+    · simp only [List.mem_append, List.mem_singleton] at hc
+      rcases hc with hc | hc
+      · exact ih (n / 10) (by omega) c hc
+      · omega
+
+/-- the status line written by the server is read back as its code -/
+theorem responseLine_write (code : Nat) (reason rest : Bytes) (hc : code < 2147483648) (hr : 13 ∉ reason) :
+    responseLine (Pistache.bytes "HTTP/1.1 " ++ natToDec code ++ [32] ++ reason ++ Emit.crlf ++ rest) = ([Eff.setCode code], .ok () rest) := by
+  have hshape : Pistache.bytes "HTTP/1.1 " ++ natToDec code ++ [32] ++ reason ++ Emit.crlf ++ rest
+      = verText ++ (32 :: (natToDec code ++ 32 :: (reason ++ 13 :: 10 :: rest))) := by
+    have : Pistache.bytes "HTTP/1.1 " = verText ++ [32] := by decide
+    rw [this]; simp [Emit.crlf, List.append_assoc]
+  rw [hshape]
+  unfold responseLine
+  have hlen : ¬ (verText ++ (32 :: (natToDec code ++ 32 :: (reason ++ 13 :: 10 :: rest)))).length < 8 := by
+    have : verText.length = 8 := by decide
+    simp only [List.length_append, this]; omega
+  have hpre : (Pistache.bytes "HTTP/1.1").isPrefixOf (verText ++ (32 :: (natToDec code ++ 32 :: (reason ++ 13 :: 10 :: rest)))) = true := by
+    have : Pistache.bytes "HTTP/1.1" = verText := rfl
+    rw [this]; exact List.isPrefixOf_iff_prefix.mpr (List.prefix_append _ _)
+  simp only [hlen, if_false, hpre, true_or, not_true_eq_false]
+  have hdrop : (verText ++ (32 :: (natToDec code ++ 32 :: (reason ++ 13 :: 10 :: rest)))).drop 8 = 32 :: (natToDec code ++ 32 :: (reason ++ 13 :: 10 :: rest)) := by
+    have : verText.length = 8 := by decide
+    rw [← this, List.drop_left]
+  rw [hdrop]
+  unfold statusRest
+  have h0 : expectSpOrEof (32 :: (natToDec code ++ 32 :: (reason ++ 13 :: 10 :: rest))) = ([], .ok () (natToDec code ++ 32 :: (reason ++ 13 :: 10 :: rest))) := by
+    simp [expectSpOrEof]
+  rw [seq_ok _ _ _ _ () _ h0]
+  have h1 : untilAny [32] (natToDec code ++ 32 :: (reason ++ 13 :: 10 :: rest)) = ([], .ok (natToDec code) (32 :: (reason ++ 13 :: 10 :: rest))) :=
+    untilAny_stop [32] _ 32 _ (by
+      intro x hx
+      have hd := natToDec_digits' code x hx
+      have hne : x ≠ 32 := by omega
+      simp [hne]) (by simp)
+  rw [bind_ok _ _ _ _ _ _ h1]
+  have hst := Net.strtol10_canonical code (by unfold Net.longMax; omega)
+  have h2 : codeEff (natToDec code) = emit (.setCode code) := by
+    unfold codeEff
+    rw [hst]
+    simp only [ne_eq, not_true_eq_false, if_false]
+    have : wrapInt32 (code : Int) = (code : Int) := by
+      unfold wrapInt32
+      have h1 : (code : Int) % 4294967296 = code := Int.emod_eq_of_lt (by omega) (by omega)
+      simp only [h1]
+      split
+      · omega
+      · rfl
+    rw [this]
+  rw [h2, seq_ok (emit (.setCode code)) _ _ [Eff.setCode code] () _ (emit_eval _ _)]
+  rw [seq_ok skip1 _ _ [] () _ (skip1_cons _ _)]
+  rw [bind_ok untilEol _ _ [] reason _ (untilEol_line reason rest hr)]
+  simp [skip2_crlf]
+
+/-- T6 (composition, responses with a fixed-length body): the status line for `code`, header lines the
+    header model accepts (among them the Content-Length the writer adds) and the body — fed to a fresh
+    response parser — are parsed to completion; the parsed response has exactly that code, the effects of
+    exactly those header lines, and exactly that body. -/
+theorem response_written (code : Nat) (reason : Bytes) (lines : List (Bytes × Bytes × List Eff)) (body : Bytes) (max : Nat)
+    (hc : code < 2147483648) (hr : 13 ∉ reason)
+    (hlines : ∀ l ∈ lines, LineOk l.1 l.2.1 ∧ headerEffects l.1 l.2.1 = .ok l.2.2)
+    (hframe : FramingFor (({} : Msg).apps ([Eff.setCode code] ++ (lines.map (·.2.2)).flatten)) body)
+    (hfit : (Pistache.bytes "HTTP/1.1 " ++ natToDec code ++ [32] ++ reason ++ Emit.crlf
+        ++ ((lines.map fun (l : Bytes × Bytes × List Eff) => lineBytes l.1 l.2.1).flatten ++ Emit.crlf ++ body)).length ≤ max) :
+    ∃ p', run (init .response max) [Pistache.bytes "HTTP/1.1 " ++ natToDec code ++ [32] ++ reason ++ Emit.crlf
+        ++ ((lines.map fun (l : Bytes × Bytes × List Eff) => lineBytes l.1 l.2.1).flatten ++ Emit.crlf ++ body)] = (p', .done) ∧
+      p'.msg = { (({} : Msg).apps ([Eff.setCode code] ++ (lines.map (·.2.2)).flatten)) with body := body } := by
+  apply parse_general .response _ [Eff.setCode code] lines body max _ hlines hframe hfit
+  have : firstLine .response = responseLine := by unfold firstLine; simp
+  rw [this]
+  exact responseLine_write code reason _ hc hr
 
 /-! ### the typed-header table after a trace -/
 
@@ -457,6 +590,144 @@ theorem request_roundtrip_fields (w : Written) (hok : WrittenOk w) (max : Nat) (
     simp only [fQuery]
     rw [query_fold w.query [] (by simpa using hkeys)]
     simp
+
+/-! ### the server's fixed-length writer read back by the client's parser -/
+
+theorem framing_cl (pre : List Eff) (body : Bytes) (h1 : NoTyped "Content-Length" pre) (h2 : NoTyped "Transfer-Encoding" pre)
+    (hp : Headers.parseContentLength (natToDec body.length) = .ok body.length) :
+    FramingFor (({} : Msg).apps (pre ++ [Eff.typedAdd "Content-Length" (natToDec body.length),
+      Eff.rawAdd (Pistache.bytes "Content-Length") (natToDec body.length)])) body := by
+  have hte : typedOf (({} : Msg).apps (pre ++ [Eff.typedAdd "Content-Length" (natToDec body.length),
+      Eff.rawAdd (Pistache.bytes "Content-Length") (natToDec body.length)])).typed "Transfer-Encoding" = none := by
+    rw [typed_apps]
+    apply typedOf_fold_none _ _ _ rfl
+    apply noTyped_append _ _ _ h2
+    intro e he v heq; subst heq; simp at he
+  have hcl : typedOf (({} : Msg).apps (pre ++ [Eff.typedAdd "Content-Length" (natToDec body.length),
+      Eff.rawAdd (Pistache.bytes "Content-Length") (natToDec body.length)])).typed "Content-Length" = some (natToDec body.length) := by
+    rw [typed_apps, List.foldl_append]
+    have h0 := typedOf_fold_none pre [] "Content-Length" rfl h1
+    simp only [List.foldl_cons, List.foldl_nil, fTyped]
+    exact typedOf_kfInsert_new _ _ _ h0
+  by_cases hb : body = []
+  · right
+    refine ⟨hb, ?_⟩
+    simp only [bodyInit, hcl, hte, hp]
+    subst hb; rfl
+  · left
+    refine ⟨hb, ?_⟩
+    have hn : body.length ≠ 0 := by intro e; exact hb (List.length_eq_zero_iff.mp e)
+    simp only [bodyInit, hcl, hte, hp]
+    unfold BMode.settle
+    split
+    · rename_i heq; simp only [BMode.clData.injEq] at heq; exact absurd heq hn
+    · rfl
+
+/-- T7 (composition for `ResponseWriter::send`): the fixed-length response the server writes — status
+    line, the handler's header lines and Set-Cookie lines (each accepted by the header model and none of
+    them a framing header), the Content-Length the writer adds, blank line, body — is parsed to completion
+    by the client's parser; the parsed response carries exactly that code, the effects of exactly those
+    lines, and exactly that body. -/
+theorem fixed_response_roundtrip (code : Nat) (lines : List (Bytes × Bytes × List Eff)) (body : Bytes) (max : Nat)
+    (hc : code < 2147483648)
+    (hlines : ∀ l ∈ lines, LineOk l.1 l.2.1 ∧ headerEffects l.1 l.2.1 = .ok l.2.2 ∧ NoTyped "Content-Length" l.2.2 ∧ NoTyped "Transfer-Encoding" l.2.2)
+    (hp : Headers.parseContentLength (natToDec body.length) = .ok body.length)
+    (hclEff : headerEffects (Pistache.bytes "Content-Length") (natToDec body.length)
+      = .ok [Eff.typedAdd "Content-Length" (natToDec body.length), Eff.rawAdd (Pistache.bytes "Content-Length") (natToDec body.length)])
+    (hfit : (Emit.statusLine false code ++ ((lines ++ [(Pistache.bytes "Content-Length", natToDec body.length,
+        [Eff.typedAdd "Content-Length" (natToDec body.length), Eff.rawAdd (Pistache.bytes "Content-Length") (natToDec body.length)])]).map
+          fun (l : Bytes × Bytes × List Eff) => lineBytes l.1 l.2.1).flatten ++ Emit.crlf ++ body).length ≤ max) :
+    ∃ p', run (init .response max) [Emit.statusLine false code ++ ((lines ++ [(Pistache.bytes "Content-Length", natToDec body.length,
+        [Eff.typedAdd "Content-Length" (natToDec body.length), Eff.rawAdd (Pistache.bytes "Content-Length") (natToDec body.length)])]).map
+          fun (l : Bytes × Bytes × List Eff) => lineBytes l.1 l.2.1).flatten ++ Emit.crlf ++ body] = (p', .done) ∧
+      p'.msg.code = code ∧ p'.msg.body = body := by
+  let clLine : Bytes × Bytes × List Eff := (Pistache.bytes "Content-Length", natToDec body.length,
+        [Eff.typedAdd "Content-Length" (natToDec body.length), Eff.rawAdd (Pistache.bytes "Content-Length") (natToDec body.length)])
+  have hall : ∀ l ∈ lines ++ [clLine], LineOk l.1 l.2.1 ∧ headerEffects l.1 l.2.1 = .ok l.2.2 := by
+    intro l hl
+    simp only [List.mem_append, List.mem_singleton] at hl
+    rcases hl with hl | hl
+    · obtain ⟨a, b, _, _⟩ := hlines l hl; exact ⟨a, b⟩
+    · subst hl; exact ⟨natToDec_line _, hclEff⟩
+  have hflat : ((lines ++ [clLine]).map (·.2.2)).flatten = (lines.map (·.2.2)).flatten ++ clLine.2.2 := by simp
+  have hnoCL : NoTyped "Content-Length" ([Eff.setCode code] ++ (lines.map (·.2.2)).flatten) := by
+    apply noTyped_append
+    · intro e he v heq; subst heq; simp at he
+    · intro e he v heq
+      simp only [List.mem_flatten, List.mem_map] at he
+      obtain ⟨t, ⟨l, hl, rfl⟩, het⟩ := he
+      exact (hlines l hl).2.2.1 e het v heq
+  have hnoTE : NoTyped "Transfer-Encoding" ([Eff.setCode code] ++ (lines.map (·.2.2)).flatten) := by
+    apply noTyped_append
+    · intro e he v heq; subst heq; simp at he
+    · intro e he v heq
+      simp only [List.mem_flatten, List.mem_map] at he
+      obtain ⟨t, ⟨l, hl, rfl⟩, het⟩ := he
+      exact (hlines l hl).2.2.2 e het v heq
+  have hframe : FramingFor (({} : Msg).apps ([Eff.setCode code] ++ ((lines ++ [clLine]).map (·.2.2)).flatten)) body := by
+    rw [hflat, ← List.append_assoc]
+    exact framing_cl _ body hnoCL hnoTE hp
+  have hsl : Emit.statusLine false code = Pistache.bytes "HTTP/1.1 " ++ natToDec code ++ [32] ++ Emit.reason code ++ Emit.crlf := by
+    simp [Emit.statusLine]
+  have hr : 13 ∉ Emit.reason code := by
+    -- the reason phrases of the status table contain no CR (decided over the whole generated table)
+    have hall : (Gen.statusCodes.all fun p => !(Pistache.bytes p.2.2).contains 13) = true := by decide +kernel
+    unfold Emit.reason
+    split
+    · rename_i p hp'
+      have := List.all_eq_true.mp hall p (List.mem_of_find?_eq_some hp')
+      simpa using this
+    · simp
+  rw [hsl] at hfit ⊢
+  obtain ⟨p', h1, h2⟩ := response_written code (Emit.reason code) (lines ++ [clLine]) body max hc hr hall hframe (by simpa [List.append_assoc] using hfit)
+  refine ⟨p', by simpa [List.append_assoc] using h1, ?_, ?_⟩
+  · rw [h2, apps_fields]
+    simp only [List.foldl_append, List.foldl_cons, List.foldl_nil, fCode]
+    have hinert : ∀ (t : List Eff), (∀ e ∈ t, IsHeaderEff e) → ∀ x : Int, t.foldl fCode x = x := by
+      intro t ht x
+      exact fold_header_inert fCode (by intro x e h; cases e <;> first | rfl | exact absurd h (by simp [IsHeaderEff])) t ht x
+    apply hinert
+    intro e he
+    simp only [List.mem_flatten, List.mem_map] at he
+    obtain ⟨t, ⟨l, hl, rfl⟩, het⟩ := he
+    exact headerEffects_kinds _ _ _ (hall l hl).2 e het
+  · rw [h2]
+
+/-- the bytes of T7 are exactly what the writer model `Emit.fixedBytes` produces (the model whose
+    serialisation is compared with the real server's bytes on every run) -/
+theorem fixedBytes_shape (m : Emit.Msg) (body : Bytes) (hv : m.http10 = false) (he : List (List Eff)) (ce : List (List Eff))
+    (clE : List Eff) (h1 : he.length = m.headers.length) (h2 : ce.length = m.cookies.length) :
+    Emit.fixedBytes m body = Emit.statusLine false m.code ++
+      ((((m.headers.zip he).map fun (x : (Bytes × Bytes) × List Eff) => (x.1.1, x.1.2, x.2)) ++
+        ((m.cookies.zip ce).map fun (x : Bytes × List Eff) => (Pistache.bytes "Set-Cookie", x.1, x.2)) ++
+        [(Pistache.bytes "Content-Length", natToDec body.length, clE)]).map
+          fun (l : Bytes × Bytes × List Eff) => lineBytes l.1 l.2.1).flatten ++ Emit.crlf ++ body := by
+  have hz1 : ∀ (hs : List (Bytes × Bytes)) (es : List (List Eff)), es.length = hs.length →
+      (((hs.zip es).map fun (x : (Bytes × Bytes) × List Eff) => (x.1.1, x.1.2, x.2)).map fun (l : Bytes × Bytes × List Eff) => lineBytes l.1 l.2.1)
+        = hs.map Emit.headerLine := by
+    intro hs
+    induction hs with
+    | nil => intro es _; simp
+    | cons h t ih =>
+      intro es hl
+      cases es with
+      | nil => simp at hl
+      | cons e es' => simp only [List.zip_cons_cons, List.map_cons]; rw [ih es' (by simpa using hl)]; rfl
+  have hz2 : ∀ (cs : List Bytes) (es : List (List Eff)), es.length = cs.length →
+      (((cs.zip es).map fun (x : Bytes × List Eff) => (Pistache.bytes "Set-Cookie", x.1, x.2)).map fun (l : Bytes × Bytes × List Eff) => lineBytes l.1 l.2.1)
+        = cs.map Emit.cookieLine := by
+    intro cs
+    induction cs with
+    | nil => intro es _; simp
+    | cons c t ih =>
+      intro es hl
+      cases es with
+      | nil => simp at hl
+      | cons e es' =>
+        simp only [List.zip_cons_cons, List.map_cons]; rw [ih es' (by simpa using hl)]
+        simp [lineBytes, Emit.cookieLine, Pistache.bytes, List.append_assoc]
+  simp only [Emit.fixedBytes, Emit.head, hv, List.map_append, List.flatten_append, hz1 _ _ h1, hz2 _ _ h2]
+  simp [lineBytes, Emit.headerLine, List.append_assoc]
 
 /-! ### Non-vacuity: a concrete request meets every hypothesis (test) -/
 
